@@ -238,13 +238,13 @@ class State:
     def new_ref(self, why='alloc'):
         self.nalloc += 1
         r = z3.Int(fresh_name('ref_' + why))
-        self.assume(r == self.frontier + 1)
+        self.assume(r == self.frontier + 1, definitional=True)    # r is a fresh symbol
         self.frontier = r
         return r
 
     def bump_frontier(self, why):
         f = z3.Int(fresh_name('frontier_' + why))
-        self.assume(f >= self.frontier)
+        self.assume(f >= self.frontier, definitional=True)     # f is a fresh symbol
         self.frontier = f
         return f
 
